@@ -69,7 +69,7 @@ def _mods():
 
 # ------------------------------------------------------------------ replay
 
-def replay(model, target="oil.b_o_Standing", dtype="f8", n=2, intparams=False, series=False, view=False):
+def replay(model, target="oil.b_o_Standing", dtype="f8", n=2, intparams=False, series=False, view=False, fortran=False):
     import numpy as np
     import bluebonnet.fluids.oil as oil
     import bluebonnet.fluids.water as water
@@ -83,6 +83,8 @@ def replay(model, target="oil.b_o_Standing", dtype="f8", n=2, intparams=False, s
     arr = np.array(vals, dtype=NP_DT[dtype])
     if view:
         arr = arr[::-1].copy()[::-1]      # the same values as a negative-stride view of another array
+    if fortran:
+        arr = np.asfortranarray(arr.reshape(2, 2))      # the same values as a 2 x 2 grid stored column by column (what grid.T is)
     if series:
         # a column of a re-ordered table: index labels n-1..0 in row order (positions pair pressures with results)
         import pandas as pd
@@ -127,11 +129,12 @@ def replay(model, target="oil.b_o_Standing", dtype="f8", n=2, intparams=False, s
     arr = np.asarray(arr)
     tol = 1e-5 if dtype == "f4" else 1e-9
     if out.shape == arr.shape:
+        fo, fa_ = np.asarray(out).reshape(-1), np.asarray(arr).reshape(-1)
         for j in range(n):
-            want = float(fs(int(arr[j]) if (intparams and dtype.startswith("i")) else float(arr[j])))
-            if not abs(float(out[j]) - want) <= tol * abs(want) + 1e-300:
-                problems.append(f"element {j}: array call gives {float(out[j])!r}, scalar call gives {want!r} (p={float(arr[j])!r})")
-    if not problems and "oil" in target.lower() and n:
+            want = float(fs(int(fa_[j]) if (intparams and dtype.startswith("i")) else float(fa_[j])))
+            if not abs(float(fo[j]) - want) <= tol * abs(want) + 1e-300:
+                problems.append(f"element {j}: array call gives {float(fo[j])!r}, scalar call gives {want!r} (p={float(fa_[j])!r})")
+    if not problems and "oil" in target.lower() and n and not fortran:
         # exactly at the bubble point: the solver's value for such an element cannot be hit in doubles, so the real
         # p_b (as a caller gets it from pressure_bubblepoint_Standing) is put in each position in turn
         pb = float(oil.pressure_bubblepoint_Standing(T_, api, gg, rsi))
@@ -232,12 +235,13 @@ def job_target(job, target, lengths):
     job.assume_text("integer dtypes: element values in [15, 20000]; 'python-int parameters' variant: temperature, API gravity, "
                     "initial GOR and salinity are Python ints (whole numbers), gas gravity a float; integer-dtype array arithmetic "
                     "must stay inside the dtype's range on that box (no silent wrap-around)")
-    variants = [(dt, False, False) for dt in DTYPES] + [(dt, True, False) for dt in ("i8", "i4")] + [("f8", False, True), ("f8", False, "view")]
+    variants = [(dt, False, False) for dt in DTYPES] + [(dt, True, False) for dt in ("i8", "i4")] + [("f8", False, True), ("f8", False, "view"), ("f8", False, "fortran")]
     for dt, intp, ser in variants:
         view = ser == "view"
+        fort = ser == "fortran"          # a 2 x 2 array in Fortran order (a transposed grid, np.asfortranarray): non-contiguous in C order
         ser = ser is True
         vs, dom = (vs_i, dom_i) if intp else (vs_f, dom_f)
-        for n in (lengths[dt] if isinstance(lengths, dict) else lengths):
+        for n in ((4,) if fort else (lengths[dt] if isinstance(lengths, dict) else lengths)):
             if (intp and n == 0) or (ser and n < 2):
                 continue
             els = [fresh(f"e{j}", pos=True, integer=intp) for j in range(n)]
@@ -246,23 +250,34 @@ def job_target(job, target, lengths):
                 edom += [T.b_le(T.Poly.const(15), P(e)), T.b_le(P(e), T.Poly.const(20000))]
             if view and n < 2:
                 continue
-            rp = (replay, {"target": target, "dtype": dt, "n": n, "intparams": intp, "series": ser, "view": view})
-            tag = f"{target}[{NP_DT[dt]}{',python-int parameters' if intp else ''}{',Series labelled n-1..0' if ser else ''}{',negative-stride view' if view else ''},len={n}]"
+            rp = (replay, {"target": target, "dtype": dt, "n": n, "intparams": intp, "series": ser, "view": view, "fortran": fort})
+            tag = f"{target}[{NP_DT[dt]}{',python-int parameters' if intp else ''}{',Series labelled n-1..0' if ser else ''}{',negative-stride view' if view else ''}{',2 x 2 in Fortran order' if fort else ''},len={n}]"
+            want_shape = (2, 2) if fort else (n,)
 
             def run():
                 arr = SymArray([Sym(e.p) for e in els], dt) if not ser else pd_shim.SymSeries([Sym(e.p) for e in els], dt, list(range(n - 1, -1, -1)))
                 if view:
                     arr = SymArray([Sym(e.p) for e in reversed(els)], dt)[::-1]      # logical order e0, e1, ...; memory order reversed
-                snap = list(arr.d)
+                if fort:
+                    arr = SymArray([SymArray([Sym(els[0].p), Sym(els[1].p)], dt), SymArray([Sym(els[2].p), Sym(els[3].p)], dt)], dt, (2, 2))
+                    arr._order = "F"
+                snap = list(arr._flat())
                 out = call_arr(mod, vs, arr)
                 scal = [call_scalar(mods, vs, e) for e in els]
-                touched = len(arr.d) != len(snap) or any(a is not b for a, b in zip(arr.d, snap)) or arr.dtype_tag != dt
+                now = list(arr._flat())
+                touched = len(now) != len(snap) or any(a is not b for a, b in zip(now, snap)) or arr.dtype_tag != dt
                 return out, scal, touched
 
             res = paths(job, run, dom + edom, catch=(ValueError, TypeError, UninitRead, IndexError), max_paths=64)
             if not res:
                 job.errors.append(f"{tag}: no feasible path")
             for k, pr in enumerate(res):
+                if pr.exc is not None and fort:
+                    # the property quantifies over 1-D arrays (length 0 / 1 / n) and their strided views; a 2-D array is asked
+                    # only of the functions that take it (element-wise, same shape).  A function that rejects 2-D input - on the
+                    # pinned tree oil_compressibility_undersat_Spivey does - or that the model cannot run on it is not decided here
+                    job.record(f"{tag}/not decided: the function (or the model of it) does not take a 2-D array[path{k}]", "info", 0.0, note=str(pr.exc)[:80])
+                    continue
                 if pr.exc is not None:
                     job.prove(f"{tag}/raises {type(pr.exc).__name__}[path{k}]", pr.pc, bound="oil/water box", replay=rp, note=str(pr.exc)[:80])
                     continue
@@ -273,8 +288,8 @@ def job_target(job, target, lengths):
                 else:
                     if out.dtype_tag not in ("f8", "f4"):
                         struct.append(f"result dtype {out.dtype_tag} is not floating")
-                    if out.shape != (n,):
-                        struct.append(f"result shape {out.shape} != ({n},)")
+                    if out.shape != want_shape:
+                        struct.append(f"result shape {out.shape} != {want_shape}")
                     if any(isinstance(x, Uninit) for x in out._flat()):
                         struct.append("result contains an uninitialised element")
                 if touched:
@@ -282,13 +297,14 @@ def job_target(job, target, lengths):
                 if struct:
                     # structural facts are concrete on the path: confirm through the real function
                     job.prove(f"{tag}/structure[path{k}]: {'; '.join(struct)}", pr.pc, bound="oil/water box", replay=rp)
-                    if not isinstance(out, SymArray) or out.shape != (n,) or any(isinstance(x, Uninit) for x in out._flat()):
+                    if not isinstance(out, SymArray) or out.shape != want_shape or any(isinstance(x, Uninit) for x in out._flat()):
                         continue
                 else:
                     job.record(f"{tag}/structure[path{k}]", "unsat", 0.0, note="floating dtype, same shape, no uninitialised element, input untouched")
                 tol = Fraction(1, 10**5) if dt == "f4" else Fraction(1, 10**9)
                 if n:
-                    neq = T.b_or(*[not_close(out.d[j], scal[j], tol=tol, abs_tol=Fraction(0)) for j in range(n)])
+                    flat = list(out._flat())
+                    neq = T.b_or(*[not_close(flat[j], scal[j], tol=tol, abs_tol=Fraction(0)) for j in range(n)])
                     job.prove(f"{tag}/elements==scalar calls[path{k}]", pr.pc + [neq], bound="oil/water box", replay=rp)
                 if dt in ("i8", "i4"):
                     check_defined(job, f"{tag}[path{k}]", pr, bound="integer elements in [15, 20000], oil/water box", overflow=True, replay=rp)
